@@ -376,6 +376,7 @@ func checkC19(w *World, r *Report) {
 	n := checkStringUnits(w, r, "R19.1", false)
 	r.Counts["string-measuring constructs in the sibling implementations"] = n
 	checkOptionalDefaults(w, r)
+	checkSortComparators(w, r)
 	// R19.3: the emptiness routine behind `default` (and the empty test)
 	nz := checkZeroTests(w, r, "R19.3", func(f *types.Func) bool { return f.Name() == "isEmptyValue" }, "treated as non-empty: `default` does not replace it although it replaces int 0")
 	r.Counts["zero tests in the emptiness routine"] = nz
@@ -555,4 +556,81 @@ func presenceGuarded(w *World, fd *ast.FuncDecl, ifs *ast.IfStmt, optVar types.O
 		}
 	}
 	return false
+}
+
+// checkSortComparators (R19.4): sort.Slice / sort.SliceStable swap the elements of the slice they
+// are given and call less(i, j) with positions in THAT slice.  A less function that indexes a
+// different container with i and j (a pre-computed key slice, the unsorted original) compares
+// stale positions after the first swap, so the result is a permutation that is not ordered.
+func checkSortComparators(w *World, r *Report) {
+	reach := w.renderOnlyReachable()
+	n := 0
+	for _, fd := range w.sortedDecls() {
+		obj := w.Info.Defs[fd.Name].(*types.Func)
+		if !reach[w.ssaFunc(obj)] {
+			continue
+		}
+		fname := w.declName(fd)
+		ast.Inspect(fd.Body, func(nd ast.Node) bool {
+			c, ok := nd.(*ast.CallExpr)
+			if !ok || len(c.Args) != 2 {
+				return true
+			}
+			if !(w.calleeIs(c, "sort", "", "Slice") || w.calleeIs(c, "sort", "", "SliceStable")) {
+				return true
+			}
+			lit, ok := c.Args[1].(*ast.FuncLit)
+			if !ok || lit.Type.Params == nil {
+				return true
+			}
+			var params []types.Object
+			for _, f := range lit.Type.Params.List {
+				for _, nm := range f.Names {
+					params = append(params, w.Info.Defs[nm])
+				}
+			}
+			if len(params) != 2 {
+				return true
+			}
+			n++
+			// the sorted container: X itself, or V where X is V.Interface()
+			sorted := types.ExprString(ast.Unparen(c.Args[0]))
+			if ic, ok := ast.Unparen(c.Args[0]).(*ast.CallExpr); ok {
+				if sel, ok := ic.Fun.(*ast.SelectorExpr); ok && sel.Sel.Name == "Interface" {
+					sorted = types.ExprString(sel.X)
+				}
+			}
+			var foreign []string
+			ast.Inspect(lit.Body, func(m ast.Node) bool {
+				var base, idx ast.Expr
+				switch x := m.(type) {
+				case *ast.IndexExpr:
+					base, idx = x.X, x.Index
+				case *ast.CallExpr:
+					if sel, ok := x.Fun.(*ast.SelectorExpr); ok && sel.Sel.Name == "Index" && len(x.Args) == 1 && isNamed(w.Info.TypeOf(sel.X), "reflect", "Value") {
+						base, idx = sel.X, x.Args[0]
+					}
+				}
+				if base == nil {
+					return true
+				}
+				if !w.mentions(idx, params...) {
+					return true
+				}
+				if b := types.ExprString(ast.Unparen(base)); b != sorted {
+					foreign = append(foreign, b)
+				}
+				return true
+			})
+			construct := "less function of sort over " + sorted
+			if len(foreign) == 0 {
+				r.ok("R19.4", fname, construct, w.pos(c), "i and j index only the slice being sorted", true)
+			} else {
+				sort.Strings(foreign)
+				r.bad("R19.4", fname, construct, w.pos(c), fmt.Sprintf("the less function indexes %v with the positions i, j of %s: after the first swap those positions describe other elements, so the result is a permutation that is not ordered", uniq(foreign), sorted))
+			}
+			return true
+		})
+	}
+	r.Counts["sort.Slice comparators on render paths"] = n
 }
